@@ -228,6 +228,10 @@ def fixed_cases():
     return [(t, p) for p in paths] + [(cyc, "/a/l/a"), (cyc, "/a/l/a/f"), (loop, "/a/l"), (loop, "/a/l/x"), (loop, "/a/m/x"), (loop, "/a/m/")]
 
 
+def tree_has_dotdot(t):
+    return any((v[0] == "l" and ".." in v[1]) or (v[0] == "d" and tree_has_dotdot(v[1])) for v in t.values())
+
+
 def copy_tree(t):
     return {k: (v[0], copy_tree(v[1]) if v[0] == "d" else v[1]) for k, v in t.items()}
 
@@ -246,9 +250,7 @@ def run_fs(chk, drv=None, model=None):
         dotdot_ok = (mode == "chroot")
         chk.cov["fsrm_sandbox_mode"] = mode
         # ---- cases ----
-        cases = [(t, p) for (t, p) in fixed_cases() if dotdot_ok or (".." not in p and ".." not in tree_str(t))]
-        if not dotdot_ok:
-            cases = [(t, p) for (t, p) in cases if not any(v[0] == "l" and ".." in v[1] for v in t.values())]
+        cases = [(t, p) for (t, p) in fixed_cases() if dotdot_ok or (".." not in p and not tree_has_dotdot(t))]
         target = chk.n(300, 5000)
         while len(cases) < target:
             counter = [0]
@@ -258,18 +260,19 @@ def run_fs(chk, drv=None, model=None):
             rng.shuffle(ps)
             cases += [(t, p) for p in ps[:14]]
         cases = cases[:max(target, len(fixed_cases()))]
-        reqs = ["fsrm %s %s" % (tree_str(t), hx(p.encode())) for (t, p) in cases]
-        rc, mout, merr = vlib.run_lines(mbin, reqs, timeout=1200)
-        assert rc == 0 and len(mout) == len(reqs), (rc, merr[-500:])
+        mdl = vlib.Interactive(mbin)
         nplain = nlinkway = nok = 0
         shapes = set()
         dis = []
-        for (t, p), m in zip(cases, mout):
+        for (t, p) in cases:
             ts = tree_str(t)
             r = d.ask("mk %s %s" % (S, ts))
             assert r == "ok", (r, ts)
             b = d.ask("dump " + S)
             assert b == ts, "harness: the tree built is not the tree asked for\n%s\n%s" % (b, ts)
+            # the model gets the directory entries in the order readdir hands them out (an input from the environment)
+            to = d.ask("dumpo " + S)
+            m = mdl.ask("fsrm %s %s" % (to, hx(p.encode())))
             status = d.ask("rm %s %s" % (S, hx(p.encode())))
             a = d.ask("dump " + S)
             assert status.startswith("ok") or status.startswith("err:"), status
@@ -283,7 +286,7 @@ def run_fs(chk, drv=None, model=None):
             chk.count(("fsrm", ts, p) if a != b else None)
             if len(shapes) <= 4 and a != b:
                 chk.sample(dict(kind="fsrm", tree=ts, path=p, status=status, after=a, plain=plain), limit=10)
-            rp = dict(tree=ts, tree_readable=sorted(parse_dump(ts).items()), path=p, sandbox_mode=mode, implementation_status=status,
+            rp = dict(tree=ts, tree_in_readdir_order=to, tree_readable=sorted(parse_dump(ts).items()), path=p, sandbox_mode=mode, implementation_status=status,
                       implementation_tree_after=a, model_answer=m, plain=plain,
                       how="fsrm_driver: mk <dir> <tree>; rm <dir> <hex path>; dump <dir>")
             bad = oracle(t, p, parse_dump(b), parse_dump(a), status)
@@ -305,7 +308,8 @@ def run_fs(chk, drv=None, model=None):
                 chk.violation("fsrm-correspondence", "model (Path.FsRemove.remove_path) and LocalFileSystem::remove disagree on tree %s path %r: impl=%s %s model=%s"
                               % (rp["tree"], rp["path"], rp["implementation_tree_after"], rp["implementation_status"], rp["model_answer"]),
                               rp, found_input=False, broken="correspondence: Path.FsRemove.remove_path")
-        run_stale(chk, d, mbin, S, dotdot_ok)
+        run_stale(chk, d, mdl, S, dotdot_ok)
+        mdl.close()
     finally:
         try:
             d.ask("clean " + S)
@@ -318,7 +322,7 @@ def fl(l):
     return "." if not l else ",".join(hx(x.encode()) for x in l)
 
 
-def run_stale(chk, d, mbin, S, dotdot_ok):
+def run_stale(chk, d, mdl, S, dotdot_ok):
     """(S) the loop of StaleFileRemovalCommand::execute over the deletion list, on the real file system"""
     rng = chk.rng
     cases = []
@@ -333,11 +337,8 @@ def run_stale(chk, d, mbin, S, dotdot_ok):
         tops = sorted(t) or ["a"]
         roots = [] if rng.random() < 0.3 else ["/" + rng.choice(tops) + rng.choice(["", "/"]) for _ in range(rng.randint(1, 2))]
         cases.append((t, prior, expected, roots))
-    reqs = ["stale_fs %s %s %s %s" % (tree_str(t), fl(pr), fl(ex), fl(ro)) for (t, pr, ex, ro) in cases]
-    rc, mout, merr = vlib.run_lines(mbin, reqs, timeout=1200)
-    assert rc == 0 and len(mout) == len(reqs), (rc, merr[-500:])
     ndel = 0
-    for (t, pr, ex, ro), m in zip(cases, mout):
+    for (t, pr, ex, ro) in cases:
         def allowed(p):
             if not ro:
                 return True
@@ -346,6 +347,7 @@ def run_stale(chk, d, mbin, S, dotdot_ok):
         ts = tree_str(t)
         assert d.ask("mk %s %s" % (S, ts)) == "ok"
         b = d.ask("dump " + S)
+        m = mdl.ask("stale_fs %s %s %s %s" % (d.ask("dumpo " + S), fl(pr), fl(ex), fl(ro)))
         statuses = [d.ask("rm %s %s" % (S, hx(p.encode()))) for p in dels]
         a = d.ask("dump " + S)
         ndel += len(dels)
